@@ -196,3 +196,29 @@ Theorem C12_member_lookup_must_be_case_insensitive :
 Proof. exact c12_member_lookup_must_be_case_insensitive. Qed.
 Print Assumptions C12_member_lookup_must_be_case_insensitive.
 
+Theorem C12_ser_attr_total :
+  forall attr : string, (class_of (parse_ser_attr attr) = COk \/ class_of (parse_ser_attr attr) = CErr).
+Proof. exact c12_ser_attr_total. Qed.
+Print Assumptions C12_ser_attr_total.
+
+Theorem C12_ser_attr_refuted :
+  class_of (parse_ser_attr_with false "iden3:v1:slotIndexA=price&slotValueB") = CPanic /\
+  class_of (parse_ser_attr "iden3:v1:slotIndexA=price&slotValueB") = CErr.
+Proof. exact c12_ser_attr_refuted. Qed.
+Print Assumptions C12_ser_attr_refuted.
+
+Theorem C12_doc_path_total :
+  forall (defined : string -> bool) (parts : list seg) (doc : jv) (accept_array : bool),
+  Forall (fun s => match s with SNum z => 0 <= z | SName _ => True end) parts ->
+  (class_of (path_from_doc pv_repo defined parts doc accept_array) = COk \/ class_of (path_from_doc pv_repo defined parts doc accept_array) = CErr).
+Proof. exact c12_doc_path_total. Qed.
+Print Assumptions C12_doc_path_total.
+
+Theorem C12_doc_path_refuted :
+  class_of (path_from_doc (mkpv false true) all_defined [SName "items"; SName "label"] items_empty false) = CPanic /\
+  class_of (path_from_doc pv_repo all_defined [SName "items"; SName "label"] items_empty false) = CErr /\
+  class_of (path_from_doc (mkpv true false) all_defined [SName "items"; SNum 2]
+              (JVObj [("items", JVArr [JVScalar; JVScalar])]) false) = CPanic.
+Proof. exact c12_doc_path_refuted. Qed.
+Print Assumptions C12_doc_path_refuted.
+
